@@ -586,3 +586,28 @@ func (c *Ctx) ttIsNestingWrappers() {
 		outcome: c.boolOutcome(0),
 	})
 }
+
+// ttIsEmpty: IsEmpty is true exactly for an uninitialised instance or one of
+// length zero - what the Pop/Reverse wrappers gate on; nil elements count.
+func (c *Ctx) ttIsEmpty() {
+	c.runTable(ttTable{
+		rule: "R-TT", fn: "Stack.IsEmpty",
+		atoms: []ttAtom{
+			c.initAtom(),
+			c.atomTerm("Len()==0", aTR, func(fa *FnAnalysis, st *State) *Term {
+				for _, call := range c.findCalls(fa.fn, "Stack.Len") {
+					return c.eng.tt.mk(Term{K: "B", S: "==", A: c.intConst(0), B: fa.term(st, call)})
+				}
+				return nil
+			}, false),
+		},
+		feasible: func(v map[string]bool) bool { return !(v["INIT"] == false && v["Len()==0"] == false) || true },
+		expect: func(v map[string]bool) string {
+			if !v["INIT"] {
+				return "true"
+			}
+			return fmt.Sprint(v["Len()==0"])
+		},
+		outcome: c.boolOutcome(0),
+	})
+}
